@@ -133,4 +133,6 @@ if __name__ == "__main__":
         statham.__file__,
         REPO,
     )
-    main(sys.argv[1] if len(sys.argv) > 1 else os.path.join(os.path.dirname(HERE), "coq", "Generated"))
+    import translate as _T  # the importable instance owns TABLES (this file also runs as __main__)
+
+    _T.main(sys.argv[1] if len(sys.argv) > 1 else os.path.join(os.path.dirname(HERE), "coq", "Generated"))
